@@ -7,9 +7,9 @@ package netstate
 // events are built from rtnetlink link messages through the real process().
 
 import (
-	"errors"
 	"context"
 	"encoding/json"
+	"errors"
 	"fmt"
 	"sync"
 	"testing"
@@ -458,4 +458,69 @@ func TestVerif_C19race(t *testing.T) {
 	}
 	part.Complete = true
 	k.AddPart(part)
+
+	// Simultaneous first subscribers: several goroutines subscribe to an interface nobody has subscribed to yet, all
+	// released at the same moment (they queue up behind the watcher's lock, which the test holds for an instant, as a
+	// notification in progress would). Every one of them must get the change that follows and see its channel closed.
+	n2 := k.N(200, 2000)
+	part2 := verifkit.Part{Name: "simultaneous-first-subscribers(race build)", Kind: "rapid", Requested: int64(n2)}
+	for i := 0; i < n2; i++ {
+		c := c19Case{Actions: []c19Action{{Kind: "simultaneous-subscribe", N: i}}}
+		k.Journal(part2.Name, c)
+		k.Record(c, true, "simultaneous-first-subscribers")
+		w := NewWatcher()
+		iface := c19Ifaces[i%len(c19Ifaces)]
+		nsub := 2 + i%5
+		release := make(chan struct{})
+		w.watch = func(ctx context.Context, notify func(changeSet)) error {
+			<-release
+			notify(changeSet{iface: {LinkUp}})
+			return nil
+		}
+		chans := make([]<-chan Change, nsub)
+		var wg sync.WaitGroup
+		w.mu.Lock()
+		for g := 0; g < nsub; g++ {
+			wg.Add(1)
+			go func() { defer wg.Done(); chans[g] = w.Subscribe(iface, LinkUp|Change(1<<uint(g%7))) }()
+		}
+		time.Sleep(200 * time.Microsecond) // let them reach the lock (if some have not, they simply subscribe a moment later)
+		w.mu.Unlock()
+		wg.Wait()
+		done := make(chan struct{})
+		go func() { _ = w.Watch(context.Background()); close(done) }()
+		close(release)
+		select {
+		case <-done:
+		case <-time.After(30 * time.Second):
+			t.Fatalf("verif: Watch did not return within 30 s of real time (inconclusive)")
+		}
+		for g, ch := range chans {
+			got, open := 0, true
+			for open {
+				select {
+				case _, ok := <-ch:
+					if !ok {
+						open = false
+					} else {
+						got++
+					}
+				default:
+					if err := k.Judge(part2.Name, c, verifkit.Violf("C19/subscriber-lost", "%d goroutines subscribed to %q at the same moment; after one link-up and the end of the watch subscriber %d has received %d changes and its channel is still open (want 1, closed)", nsub, iface, g, got)); err != nil {
+						t.Fatal(err)
+					}
+					open = false
+					got = 1
+				}
+			}
+			if got != 1 {
+				if err := k.Judge(part2.Name, c, verifkit.Violf("C19/subscriber-lost", "%d goroutines subscribed to %q at the same moment; subscriber %d received %d changes for one link-up", nsub, iface, g, got)); err != nil {
+					t.Fatal(err)
+				}
+			}
+		}
+		part2.Done++
+	}
+	part2.Complete = true
+	k.AddPart(part2)
 }
